@@ -829,7 +829,8 @@ class TextString(Base):
         self.validate()
 
         if self.value is not None:
-            self.length = len(self.value)
+            # KMIP 9.1.1.4: Text Strings are UTF-8; the length counts bytes.
+            self.length = len(self._encoded())
             self.padding_length = self.PADDING_SIZE - (self.length %
                                                        self.PADDING_SIZE)
             if self.padding_length == self.PADDING_SIZE:
@@ -838,14 +839,25 @@ class TextString(Base):
             self.length = None
             self.padding_length = None
 
+    def _encoded(self):
+        if isinstance(self.value, bytes):
+            return self.value
+        return self.value.encode('utf-8')
+
     def read_value(self, istream, kmip_version=enums.KMIPVersion.KMIP_1_0):
         # Read string text
-        self.value = ''
-        for _ in range(self.length):
-            c = unpack(self.BYTE_FORMAT, istream.read(1))[0]
-            if sys.version >= '3':
-                c = c.decode()
-            self.value += c
+        data = istream.read(self.length)
+        if len(data) != self.length:
+            raise exceptions.ReadValueError(
+                TextString.__name__,
+                'value',
+                '{0} bytes'.format(self.length),
+                '{0} bytes'.format(len(data))
+            )
+        if sys.version >= '3':
+            self.value = data.decode('utf-8')
+        else:
+            self.value = data
 
         # Read padding and check content
         self.padding_length = self.PADDING_SIZE - (self.length %
@@ -868,8 +880,7 @@ class TextString(Base):
 
     def write_value(self, ostream, kmip_version=enums.KMIPVersion.KMIP_1_0):
         # Write string to stream
-        for char in self.value:
-            ostream.write(pack(self.BYTE_FORMAT, char.encode()))
+        ostream.write(self._encoded())
 
         # Write padding to stream
         for _ in range(self.padding_length):
